@@ -1006,6 +1006,7 @@ func (r *vC18Run) step(step map[string]interface{}) (ev vC18Event) {
 		r.state(n)
 		pBefore := r.countRecords()
 		before := atomic.LoadInt64(&n.recFails)
+		pubBefore := atomic.LoadInt64(&n.pubFails)
 		if !n.gate.releaseOne() {
 			vC18Fail("RecordPublished: dispatcher of %s is not parked", n.id)
 		}
@@ -1014,7 +1015,14 @@ func (r *vC18Run) step(step map[string]interface{}) (ev vC18Event) {
 				return true
 			}
 			r.readRaftLog(n)
-			return r.countRecords() > pBefore && n.srv.getRaft().AppliedIndex() >= r.lastRecordPos()
+			if !(r.countRecords() > pBefore && n.srv.getRaft().AppliedIndex() >= r.lastRecordPos()) {
+				return false
+			}
+			// Raft counts an entry as applied when it is handed to the FSM goroutine; the
+			// proposal returns to the dispatcher after the FSM has applied it: the record is
+			// over when the dispatcher has moved on (parked behind its next publish, waiting
+			// for the next commit, or reporting a failure)
+			return n.gate.isParked() || vC18DispatcherIdle() || atomic.LoadInt64(&n.pubFails) != pubBefore
 		})
 	case "RecordFail":
 		// only reachable for a dispatcher whose server lost the leadership
